@@ -13,10 +13,13 @@ import (
 	"fmt"
 	"io"
 	"net"
+	"os"
+	"path/filepath"
 	"sort"
 	"strconv"
 	"strings"
 	"sync"
+	"syscall"
 	"time"
 
 	"github.com/samaritan-proxy/samaritan/host"
@@ -612,36 +615,36 @@ type simLog struct {
 }
 
 type simNode struct {
-	cl      *simCluster
-	idx     int
-	id      string
-	addr    string
-	ln      net.Listener
-	store   map[string]*sval // shared with replicas of this master
-	conns   map[net.Conn]struct{}
-	log     []simLog
-	accepts int
-	delayMs int
-	silent  bool // accepts and reads but never answers
-	up      bool
-	master  int // -1 for a master, else index of its master
-	migrate map[int]int // slot -> target node (this node is the source)
-	importF map[int]int // slot -> source node (this node is the target)
+	cl          *simCluster
+	idx         int
+	id          string
+	addr        string
+	ln          net.Listener
+	store       map[string]*sval // shared with replicas of this master
+	conns       map[net.Conn]struct{}
+	log         []simLog
+	accepts     int
+	delayMs     int
+	silent      bool // accepts and reads but never answers
+	up          bool
+	master      int         // -1 for a master, else index of its master
+	migrate     map[int]int // slot -> target node (this node is the source)
+	importF     map[int]int // slot -> source node (this node is the target)
 	nodesServed int
-	gone    bool // not part of the cluster any more (not listed by CLUSTER NODES)
+	gone        bool // not part of the cluster any more (not listed by CLUSTER NODES)
 }
 
 type simCluster struct {
-	mu     sync.Mutex
-	nodes  []*simNode
-	owner  [16384]int
-	down   bool // every keyed command answers CLUSTERDOWN
-	moved  int
-	asks   int
-	wg     sync.WaitGroup
-	closed bool
-	onAsk  func() // called (under mu) when a node emits ASK
-	connSeq int
+	mu           sync.Mutex
+	nodes        []*simNode
+	owner        [16384]int
+	down         bool // every keyed command answers CLUSTERDOWN
+	moved        int
+	asks         int
+	wg           sync.WaitGroup
+	closed       bool
+	onAsk        func() // called (under mu) when a node emits ASK
+	connSeq      int
 	nodesDelayMs int // CLUSTER NODES answers this late (the text is the layout at the time the command arrived)
 }
 
@@ -1000,14 +1003,34 @@ type simProxy struct {
 	addr string
 }
 
+// freePort picks a port for a processor under test. The processors bind with SO_REUSEPORT, so two harness processes
+// running at the same time (two checks side by side) could otherwise end up sharing one port, and the kernel would spread a
+// client's connections over both processors. A port is therefore claimed machine-wide with an advisory lock that this
+// process keeps until it exits.
+var portLocks []*os.File
+
 func freePort() int {
-	l, err := net.Listen("tcp", "127.0.0.1:0")
-	if err != nil {
-		die("free port: %v", err)
+	dir := filepath.Join(os.TempDir(), "verif-harness-ports")
+	os.MkdirAll(dir, 0777)
+	for try := 0; try < 200; try++ {
+		l, err := net.Listen("tcp", "127.0.0.1:0")
+		if err != nil {
+			die("free port: %v", err)
+		}
+		p := l.Addr().(*net.TCPAddr).Port
+		l.Close()
+		f, err := os.OpenFile(filepath.Join(dir, strconv.Itoa(p)), os.O_CREATE|os.O_RDWR, 0666)
+		if err != nil {
+			return p // no lock directory: fall back to the plain choice
+		}
+		if syscall.Flock(int(f.Fd()), syscall.LOCK_EX|syscall.LOCK_NB) == nil {
+			portLocks = append(portLocks, f)
+			return p
+		}
+		f.Close()
 	}
-	p := l.Addr().(*net.TCPAddr).Port
-	l.Close()
-	return p
+	die("free port: every candidate is claimed by another harness")
+	return 0
 }
 
 func redisConfig(port int, strategy int32, connectTimeout time.Duration) *service.Config {
